@@ -200,6 +200,13 @@ class Note(object):
         else:
             if self > Note(old, o_octave):
                 self.octave -= 1
+        # A name with five accidentals can come back spelled from the other
+        # side (seven sharps instead of five flats), an octave or two away:
+        # the result lies within the octave above (below) the old note.
+        distance = int(self) - int(Note(old, o_octave))
+        if not up:
+            distance = -distance
+        self.octave -= (distance // 12) * (1 if up else -1)
 
     def from_int(self, integer):
         """Set the Note corresponding to the integer.
